@@ -40,7 +40,8 @@ enum {
 	FM_BONETREE = 8192,   // with FM_SKIN: Bone1 is a child of Bone0 instead of the root
 	FM_LEGACYSHAPE = 16384, // SSE/FO4 file that still contains NiTriShape geometry (built as Skyrim LE, then re-versioned)
 	FM_EXPORTINFO = 32768,  // 300-character export info in the header
-	FM_TEXPATH = 65536      // a texture path that needs cleaning in texture slot 0
+	FM_TEXPATH = 65536,     // a texture path that needs cleaning in texture slot 0
+	FM_SRCTEX = 131072      // OB/FO3: NiTexturingProperty (base texture) -> NiSourceTexture with a path that needs cleaning
 };
 
 struct FmModel {
@@ -206,6 +207,16 @@ static inline FmModel fm_build(NifFile& nif, int ver, int feat) {
 			if (auto ts = hdr.GetBlock<BSShaderTextureSet>(sh->TextureSetRef()))
 				if (!ts->textures.empty())
 					ts->textures[0].get() = "/effects//fx.dds ";
+	}
+	if ((feat & FM_SRCTEX) && (ver == FM_OB || ver == FM_FO3)) {
+		auto [srcS, src] = nifly::make_unique<NiSourceTexture>();
+		src->fileName.get() = "Data/Textures/armor//c.dds ";
+		uint32_t sid = hdr.AddBlock(std::move(srcS));
+		auto [tpS, tp] = nifly::make_unique<NiTexturingProperty>();
+		tp->hasBaseTex = true;
+		tp->baseTex.sourceRef.index = sid;
+		uint32_t tid = hdr.AddBlock(std::move(tpS));
+		m.shape->propertyRefs.AddBlockRef(tid);
 	}
 	if (legacy)
 		hdr.SetVersion(fm_version(ver));
